@@ -1314,8 +1314,9 @@ impl HttpListener {
 
         // Everything that can fail is computed first, on copies: a patch that
         // is answered with an error must leave the live listener untouched.
-        // The legacy `http_answers` and the new `answers` map are merged on top
-        // of the existing config and the template registry is compiled here.
+        // HTTP answers: merge legacy `http_answers` and the new `answers` map
+        // on top of the existing config and compile the listener-level
+        // template registry.
         let answers_changed = patch.http_answers.is_some() || !patch.answers.is_empty();
         let mut staged_answers = None;
         if answers_changed {
@@ -1338,8 +1339,93 @@ impl HttpListener {
             staged_answers = Some((http_answers, answers, compiled));
         }
 
-        // Everything that can fail is computed first, on copies: a patch that
-        // is answered with an error must leave the live listener untouched.
+        if let Some(v) = patch.public_address {
+            self.config.public_address = Some(v);
+        }
+        if let Some(v) = patch.expect_proxy {
+            self.config.expect_proxy = v;
+        }
+        if let Some(ref v) = patch.sticky_name {
+            self.config.sticky_name = v.to_owned();
+        }
+        if let Some(v) = patch.front_timeout {
+            self.config.front_timeout = v;
+        }
+        if let Some(v) = patch.back_timeout {
+            self.config.back_timeout = v;
+        }
+        if let Some(v) = patch.connect_timeout {
+            self.config.connect_timeout = v;
+        }
+        if let Some(v) = patch.request_timeout {
+            self.config.request_timeout = v;
+        }
+        if let Some(ref v) = patch.sozu_id_header {
+            self.config.sozu_id_header = Some(v.to_owned());
+        }
+        if let Some(v) = patch.elide_x_real_ip {
+            self.config.elide_x_real_ip = Some(v);
+        }
+        if let Some(v) = patch.send_x_real_ip {
+            self.config.send_x_real_ip = Some(v);
+        }
+
+        // H2 flood knobs
+        if let Some(v) = patch.h2_max_rst_stream_per_window {
+            self.config.h2_max_rst_stream_per_window = Some(v);
+        }
+        if let Some(v) = patch.h2_max_ping_per_window {
+            self.config.h2_max_ping_per_window = Some(v);
+        }
+        if let Some(v) = patch.h2_max_settings_per_window {
+            self.config.h2_max_settings_per_window = Some(v);
+        }
+        if let Some(v) = patch.h2_max_empty_data_per_window {
+            self.config.h2_max_empty_data_per_window = Some(v);
+        }
+        if let Some(v) = patch.h2_max_continuation_frames {
+            self.config.h2_max_continuation_frames = Some(v);
+        }
+        if let Some(v) = patch.h2_max_glitch_count {
+            self.config.h2_max_glitch_count = Some(v);
+        }
+        if let Some(v) = patch.h2_initial_connection_window {
+            self.config.h2_initial_connection_window = Some(v);
+        }
+        if let Some(v) = patch.h2_max_concurrent_streams {
+            self.config.h2_max_concurrent_streams = Some(v);
+        }
+        if let Some(v) = patch.h2_stream_shrink_ratio {
+            self.config.h2_stream_shrink_ratio = Some(v);
+        }
+        if let Some(v) = patch.h2_max_rst_stream_lifetime {
+            self.config.h2_max_rst_stream_lifetime = Some(v);
+        }
+        if let Some(v) = patch.h2_max_rst_stream_abusive_lifetime {
+            self.config.h2_max_rst_stream_abusive_lifetime = Some(v);
+        }
+        if let Some(v) = patch.h2_max_rst_stream_emitted_lifetime {
+            self.config.h2_max_rst_stream_emitted_lifetime = Some(v);
+        }
+        if let Some(v) = patch.h2_max_header_list_size {
+            self.config.h2_max_header_list_size = Some(v);
+        }
+        if let Some(v) = patch.h2_max_header_table_size {
+            self.config.h2_max_header_table_size = Some(v);
+        }
+        if let Some(v) = patch.h2_max_header_fields {
+            self.config.h2_max_header_fields = Some(v);
+        }
+        if let Some(v) = patch.h2_stream_idle_timeout_seconds {
+            self.config.h2_stream_idle_timeout_seconds = Some(v);
+        }
+        if let Some(v) = patch.h2_graceful_shutdown_deadline_seconds {
+            self.config.h2_graceful_shutdown_deadline_seconds = Some(v);
+        }
+        if let Some(v) = patch.h2_max_window_update_stream0_per_window {
+            self.config.h2_max_window_update_stream0_per_window = Some(v);
+        }
+
         // HTTP answers: commit what was staged (and compiled) above. Per-cluster
         // overrides in `HttpAnswers::cluster_answers` are preserved across the
         // rebuild.
